@@ -475,6 +475,16 @@ def _diagnose(H, ev, t, g, on, d, cfg, sfx):
                 continue
             return ("missed:" + e.kind + "-" + e.tag + sfx,
                     "no hit for required %s event at segment/sample %d (t in [%r, %r]); hits at %r" % (e.kind, e.seg, e.lo, e.hi, [h[0] for h in H]))
+    # an on-surface sample and a crossing inside its own segment are both reported
+    for j, e in enumerate(ev):
+        if e.kind == "x" and e.partner is not None and not e.alt_ok:
+            pe = ev[e.partner]
+            on_hits = [a for a, h in enumerate(H) if pe.lo - st_ <= h[0] <= pe.hi + st_]
+            x_hits = [a for a, h in enumerate(H) if e.lo - st_ <= h[0] <= e.hi + st_ and a not in on_hits]
+            if on_hits and x_hits:
+                return ("crossing-doubles-on-surface-sample" + sfx,
+                        "hits at t=%r (the on-surface sample %d, g=%r) and t=%r (a crossing inside the segment that starts at that sample): one sign change reported twice"
+                        % (H[on_hits[0]][0], pe.seg, g[pe.seg], H[x_hits[0]][0]))
     # count per window
     for j, e in enumerate(ev):
         inwin = [a for a, h in enumerate(H) if e.lo - st_ <= h[0] <= e.hi + st_]
